@@ -103,6 +103,37 @@ func (w *c08World) line(c *Ctx, in string) {
 			return fmt.Sprintf("childfx=%d tasksC=%s tasksP=%s", n, tasksOf(w.agents[parts[2]]), tasksOf(w.agents[parts[1]]))
 		})
 		c.Emit("%s => %s", in, out)
+	case "relayn": // relayn <parent> <child> <wrapreq> (<cmd> <req> <final> <body>)+ : several packages of the child in ONE relayed frame
+		pid, _ := strconv.ParseUint(parts[1], 16, 32)
+		cid, _ := strconv.ParseUint(parts[2], 16, 32)
+		wrapreq, _ := strconv.ParseUint(parts[3], 10, 32)
+		kp, kc := w.keys[parts[1]], w.keys[parts[2]]
+		var pk []dpkg
+		for i := 4; i+3 < len(parts); i += 4 {
+			cmd, _ := strconv.ParseUint(parts[i], 10, 32)
+			req, _ := strconv.ParseUint(parts[i+1], 10, 32)
+			pk = append(pk, dpkg{cmd: uint32(cmd), req: uint32(req), body: unhx(parts[i+3])})
+		}
+		inner := demonRequest(uint32(cid), kc[0], kc[1], pk)
+		pbody := binary.BigEndian.AppendUint32(nil, agent.DEMON_PIVOT_SMB_COMMAND)
+		pbody = binary.BigEndian.AppendUint32(pbody, uint32(len(inner)))
+		pbody = append(pbody, inner...)
+		outer := demonRequest(uint32(pid), kp[0], kp[1], []dpkg{{cmd: agent.COMMAND_PIVOT, req: uint32(wrapreq), body: pbody}})
+		w.ts.Take()
+		out := guard(func() string {
+			_, ok := handlers.VerifParseAgentRequest(w.ts, outer, "127.0.0.1")
+			if !ok {
+				return "REJECTED"
+			}
+			n := 0
+			for _, e := range w.ts.Take() {
+				if strings.HasPrefix(e, "console:"+parts[2]+" ") || strings.HasPrefix(e, "died:"+parts[2]) {
+					n++
+				}
+			}
+			return fmt.Sprintf("childfx=%d tasksC=%s tasksP=%s", n, tasksOf(w.agents[parts[2]]), tasksOf(w.agents[parts[1]]))
+		})
+		c.Emit("%s => %s", in, out)
 	default:
 		panic("C08: unknown op " + parts[0])
 	}
@@ -208,6 +239,30 @@ func runC08(c *Ctx) {
 				t = cbT{"output", agent.COMMAND_OUTPUT, body(fS("relayed output")), "0"}
 			}
 			w.line(c, fmt.Sprintf("relay %s %s %d %d %d %s %s", parent, child, wrap, t.cmd, req, t.final, hx(t.body)))
+		}
+		// one relayed frame with several packages of the child: outstanding, completed-in-this-frame, forged ids in any order
+		for k := 0; k < r.Intn(3); k++ {
+			child := all[r.Intn(len(all))]
+			parent := parents[child]
+			ca := w.agents[child]
+			for len(ca.Tasks) < 2 {
+				w.line(c, fmt.Sprintf("issue %s %d", child, r.U32()))
+			}
+			l := fmt.Sprintf("relayn %s %s %d", parent, child, r.U32())
+			np := 2 + r.Intn(3)
+			for j := 0; j < np; j++ {
+				req := r.U32()
+				if r.Chance(2, 3) {
+					req = ca.Tasks[r.Intn(len(ca.Tasks))].RequestID // may repeat an id an earlier package of this frame completes
+				}
+				t := cbT{"sleep", agent.COMMAND_SLEEP, body(fI(uint32(r.Intn(100))), fI(uint32(r.Intn(100)))), "1"}
+				if r.Chance(1, 3) {
+					t = cbT{"output", agent.COMMAND_OUTPUT, body(fS("relayed output")), "0"}
+				}
+				l += fmt.Sprintf(" %d %d %s %s", t.cmd, req, t.final, hx(t.body))
+			}
+			c.Count(fmt.Sprintf("relayn.%d", np))
+			w.line(c, l)
 		}
 	}
 }
